@@ -89,6 +89,7 @@ func newCache(ctx context.Context, log logutil.Log, stopch <-chan struct{}, filt
 		ctx:        ctx,
 	}
 
+	verifTrace(c, "cache.new", filter)
 	go c.lc.WatchContext(ctx)
 	go c.lc.WatchChannel(stopch)
 	go c.run()
@@ -186,12 +187,14 @@ func (c *_cache) run() {
 		case request := <-c.listch:
 			request <- c.doList()
 		case request := <-c.getch:
+			verifTrace(c, "cache.get", request.key.namespace, request.key.name, c.items[request.key].object)
 			if entry, ok := c.items[request.key]; ok {
 				request.resultch <- entry.object
 			} else {
 				request.resultch <- nil
 			}
 		case err := <-c.lc.ShutdownRequest():
+			verifTrace(c, "cache.stopping", err)
 			c.lc.ShutdownInitiated(err)
 			return
 		}
@@ -203,6 +206,7 @@ func (c *_cache) doList() []metav1.Object {
 	for _, obj := range c.items {
 		result = append(result, obj.object)
 	}
+	verifTrace(c, "cache.list", result)
 	return result
 }
 
@@ -255,11 +259,13 @@ func (c *_cache) doSync(list []metav1.Object) []Event {
 		}
 	}
 
+	verifTrace(c, "cache.sync", list, events)
 	return events
 }
 
 func (c *_cache) doRefilter(list []metav1.Object, filter filter.Filter) []Event {
 	c.filter = filter
+	verifTrace(c, "cache.filter", filter)
 	return c.doSync(list)
 }
 
@@ -271,6 +277,7 @@ func (c *_cache) doUpdate(evt Event) []Event {
 	version, err := strconv.Atoi(obj.GetResourceVersion())
 	if err != nil {
 		c.log.ErrWarn(err, "resource version %v", obj.GetResourceVersion())
+		verifTrace(c, "cache.update", evt, events)
 		return events
 	}
 
@@ -306,6 +313,7 @@ func (c *_cache) doUpdate(evt Event) []Event {
 		}
 	}
 
+	verifTrace(c, "cache.update", evt, events)
 	return events
 }
 
